@@ -192,4 +192,27 @@ theorem parse_str_str_str (ty : UInt8) (a b c : Bytes)
   rw [this]
   simp
 
+theorem parse_int_int (ty : UInt8) (a b : Nat)
+    (ha : (mpintBody a).length < 2 ^ 32) (hb : (mpintBody b).length < 2 ^ 32) :
+    parseMsg ty [.int, .int] (ty :: (mpint a ++ mpint b)) = some [.int (a : Int), .int (b : Int)] := by
+  simp only [parseMsg, beq_self_eq_true, if_true, parseFields, mpint]
+  rw [takeString_sshString _ _ ha]
+  simp only
+  have := takeString_sshString (mpintBody b) [] hb
+  rw [List.append_nil] at this
+  rw [this]
+  simp [parseMpintBody_mpintBody]
+
+theorem parse_u32x3 (ty : UInt8) (a b c : Nat) (ha : a < 2 ^ 32) (hb : b < 2 ^ 32) (hc : c < 2 ^ 32) :
+    parseMsg ty [.u32, .u32, .u32] (ty :: (u32 a ++ u32 b ++ u32 c)) = some [.u32 a, .u32 b, .u32 c] := by
+  simp only [parseMsg, beq_self_eq_true, if_true, parseFields, List.append_assoc]
+  rw [takeU32_u32 a ha]
+  simp only
+  rw [takeU32_u32 b hb]
+  simp only
+  have := takeU32_u32 c hc []
+  rw [List.append_nil] at this
+  rw [this]
+  simp
+
 end XC.C29
